@@ -44,7 +44,7 @@ ASSUMPTIONS = [
     "delpot = cutoff/(ngrid-4) is undefined for 4 rows)",
     "a cutoff that is not a whole multiple of the step is not constrained by the property and is not generated",
 ]
-REQUIRED = {"r:cutoff_dr": 40, "r:nr_dr": 15, "r:nr_cutoff": 15, "rho:cutoff_dr": 15, "reject": 30, "written": 60,
+REQUIRED = {"r:cutoff_dr": 40, "r:nr_dr": 15, "r:nr_cutoff": 15, "rho:cutoff_dr": 15, "reject": 30, "reject:all_three": 4, "reject:step_alone": 4, "reject:nr<=0": 4, "reject:dr<=0": 4, "reject:cutoff<=0": 4, "reject:nr_not_int": 4, "reject:dr_not_number": 4, "reject:all_three_one_zero": 4, "reject:not_finite": 4, "written": 60,
             "r:default": 10}
 TARGETS = ["LAMMPS", "DLPOLY", "GULP", "excel", "setfl", "setfl_fs", "DL_POLY_EAM", "DL_POLY_EAM_fs",
            "excel_eam", "excel_eam_fs", "eam_adp"]
@@ -60,24 +60,33 @@ def dec_str(d):
     return s or "0"
 
 
+WHYS = ["all_three", "step_alone", "nr<=0", "dr<=0", "cutoff<=0", "nr_not_int", "dr_not_number", "all_three_one_zero",
+        "not_finite"]
+
+
 @st.composite
-def _axis(draw, max_rows):
-    kind = draw(st.sampled_from(["cutoff_dr", "cutoff_dr", "cutoff_dr", "nr_dr", "nr_cutoff", "nr", "cutoff", "none",
-                                 "reject"]))
+def _axis(draw, max_rows, why=None):
+    kind = "reject" if why else draw(st.sampled_from(["cutoff_dr", "cutoff_dr", "cutoff_dr", "nr_dr", "nr_cutoff", "nr", "cutoff", "none",
+                                                       "reject"]))
     e = draw(st.integers(1, 4))
     m = draw(st.integers(1, min(500, 5 * 10 ** (e - 1))))
     step = Decimal(m).scaleb(-e)
     k = draw(st.one_of(st.integers(1, 60), st.integers(1, max_rows - 1)))
     ax = {"kind": kind, "dr": dec_str(step), "nr": k + 1, "cutoff": dec_str(step * k)}
     if kind == "reject":
-        ax["why"] = draw(st.sampled_from(["all_three", "step_alone", "nr<=0", "dr<=0", "cutoff<=0", "nr_not_int",
-                                          "dr_not_number"]))
+        ax["why"] = why or draw(st.sampled_from(WHYS))
     return ax
 
 
 @st.composite
-def _case(draw, max_rows):
-    return {"r": draw(_axis(max_rows)), "rho": draw(_axis(max_rows)), "target": draw(st.sampled_from(TARGETS))}
+def _case(draw, max_rows, why=None):
+    target = draw(st.sampled_from(TARGETS))
+    if why:
+        # one axis carries the refused combination, the other one is valid
+        on_rho = target in EAM and draw(st.booleans())
+        return {"r": draw(_axis(max_rows, None if on_rho else why)), "rho": draw(_axis(max_rows, why if on_rho else None)),
+                "target": target}
+    return {"r": draw(_axis(max_rows)), "rho": draw(_axis(max_rows)), "target": target}
 
 
 def strategy(tier):
@@ -85,7 +94,7 @@ def strategy(tier):
 
 
 def strata(tier):
-    return [("small", _case(600), 7), ("large", _case(20000), 3)]
+    return [("small", _case(600), 7), ("large", _case(20000), 3)] + [("reject:" + w, _case(60, w), 0.25) for w in WHYS]
 
 
 def budget(tier):
@@ -124,6 +133,13 @@ def _entries(axname, ax):
         return [(n_nr, str(nr)), (n_dr, "-" + dr if nr % 2 else "0")], "reject"
     if why == "cutoff<=0":
         return [(n_nr, str(nr)), (n_cut, "-" + cut if nr % 2 else "0.0")], "reject"
+    if why == "all_three_one_zero":
+        # all three given, one of them as 0 (a value, not an omission): both rules refuse it
+        z = nr % 3
+        return [(n_nr, "0" if z == 0 else str(nr)), (n_dr, "0" if z == 1 else dr), (n_cut, ("0", "0.0")[nr % 2] if z == 2 else cut)], "reject"
+    if why == "not_finite":
+        bad = ["inf", "nan", "-inf", "Infinity"][nr % 4]
+        return [[(n_nr, str(nr)), (n_cut, bad)], [(n_cut, cut), (n_dr, bad)], [(n_nr, str(nr)), (n_dr, bad)]][(nr // 4) % 3], "reject"
     if why == "nr_not_int":
         return [(n_nr, "%d.5" % nr), (n_cut, cut)], "reject"
     return [(n_nr, str(nr)), (n_dr, "abc")], "reject"
@@ -170,6 +186,8 @@ def parser_level(text, wr, wrho):
         if wr == "reject" or wrho == "reject":
             return v, True
         return [("parser:rejected_valid", "%r\n%s" % (e, text))], True
+    except Exception as e:
+        return [("parser:exception:%s@%s" % (type(e).__name__, libroute.innermost_atsim_frame(e)), "%r\n%s" % (e, text))], True
     for ax, want in (("r", wr), ("rho", wrho)):
         if want is None:
             continue
@@ -258,6 +276,9 @@ def check_case(case):
     rejecting = wr == "reject" or wrho == "reject"
     if rejecting:
         cls.append("reject")
+        for axn in ("r", "rho"):
+            if case[axn]["kind"] == "reject" and (axn == "r" or target in EAM):
+                cls.append("reject:" + case[axn]["why"])
     if wr != "reject" and case["r"]["kind"] in ("nr", "cutoff", "none"):
         cls.append("r:default")
     v, _ = parser_level(text, wr, wrho)
